@@ -358,6 +358,140 @@ def check_defaulted_lengths(ctx, prog, tag, rule="C07.V15.defaulted-unknown-leng
     return n
 
 
+def _param_deps(f, op, depth=0):
+    """parameters a value is computed from (through calls and aggregates, projection-sensitive where the facts are)"""
+    out = set()
+    if depth > 8 or op is None or "c" in op:
+        return out
+    for o in flow.origins(f, op):
+        if o.kind == "arg":
+            out.add(o.arg)
+        elif o.kind == "call":
+            sub = set()
+            for a in o.call.args:
+                sub |= _param_deps(f, a, depth + 1)
+            if len(sub - {"?"}) > 1:
+                sub = {"?"}          # a value built from both operands (`a.zip(b)`): which part is which is not tracked
+            out |= sub
+        elif o.kind == "agg":
+            for a in o.rv["ops"]:
+                out |= _param_deps(f, a, depth + 1)
+        elif o.kind in ("bin", "un", "cast") and getattr(o, "rv", None):
+            for k in ("a", "b", "op"):
+                if isinstance(o.rv.get(k), dict):
+                    out |= _param_deps(f, o.rv[k], depth + 1)
+    return out
+
+
+ORD_COMBINATORS = ("core::cmp::Ordering::then", "core::cmp::Ordering::then_with")
+
+
+def _reverse_parities(f, call):
+    """with how many `Ordering::reverse` (mod 2) the result of a comparison reaches the function's result; None when
+    it is inspected on the way (a `match` on it) and the rule has nothing to say"""
+    if call.dest is None or "p" in call.dest:
+        return None
+    seen = set()
+    work = [(call.dest["l"], 0)]
+    out = set()
+    while work:
+        l, par = work.pop()
+        if (l, par) in seen:
+            continue
+        seen.add((l, par))
+        if l == 0:
+            out.add(par)
+            continue
+        used = False
+        for bb, i, st in f.all_stmts():
+            if st["k"] != "assign":
+                continue
+            rv = st["rv"]
+            if rv["k"] == "use":
+                q = op_place(rv["op"])
+                if q is not None and "p" not in q and q["l"] == l and "p" not in st["place"]:
+                    work.append((st["place"]["l"], par))
+                    used = True
+            elif rv["k"] == "discr" and isinstance(rv.get("place"), dict) and rv["place"]["l"] == l:
+                return None
+        for c in f.calls():
+            if c.bb == call.bb or not c.args:
+                continue
+            q = op_place(c.args[0])
+            if q is None or "p" in q or q["l"] != l:
+                if any(op_place(a) is not None and op_place(a).get("l") == l for a in c.args[1:]):
+                    return None
+                continue
+            if c.dest is None or "p" in c.dest:
+                return None
+            if c.name == "core::cmp::Ordering::reverse":
+                work.append((c.dest["l"], par ^ 1))
+            elif c.name in ORD_COMBINATORS:
+                work.append((c.dest["l"], par))
+            else:
+                return None
+            used = True
+        for sb in f.reachable:
+            t = f.term(sb)
+            if t["k"] == "switch":
+                q = op_place(t["discr"])
+                if q is not None and "p" not in q and q["l"] == l:
+                    return None
+    return out
+
+
+def check_comparator_orientation(ctx, prog, tag, crates=("minijinja", "minijinja_contrib"),
+                                 rule="C07.V17.comparison-keeps-the-orientation-of-its-operands"):
+    """V17 (round 12, seed C07-12): an order is antisymmetric only if a comparator that hands its two operands to an
+    inner comparison either hands them in their own order and returns the verdict as it is, or hands them swapped (a
+    mixed-type helper takes the float / the signed operand first) and returns the verdict *reversed*.  In every
+    function that takes two operands and returns an `Ordering`, each inner comparison whose two arguments are computed
+    from one operand each is classified (straight / swapped) and the number of `Ordering::reverse` between it and the
+    function's result must match; an inner comparison both of whose arguments can come from either operand (one match
+    arm bound by an or-pattern over both orientations) has no orientation at all.  Comparisons whose verdict is
+    inspected (`match a.cmp(b) { .. }`) are not judged."""
+    n = 0
+    for f in sorted(prog.fns.values(), key=lambda x: x.path):
+        if f.crate not in crates or f.kind == "closure" or f.argc < 2:
+            continue
+        if "Ordering" not in f.locals[0].get("s", "") or "Option" in f.locals[0].get("s", ""):
+            continue
+        for c in f.calls():
+            last = c.name.split("::")[-1]
+            g = prog.fns.get(c.resolved or c.path)
+            is_cmp = last in ("cmp", "total_cmp") or (g is not None and g.kind != "closure" and g.argc == 2
+                                                        and "Ordering" in g.locals[0].get("s", "") and "Option" not in g.locals[0].get("s", ""))
+            if not is_cmp or len(c.args) != 2:
+                continue
+            d0, d1 = _param_deps(f, c.args[0]), _param_deps(f, c.args[1])
+            if not d0 or not d1 or "?" in d0 or "?" in d1:
+                continue
+            inst = "%s%s|%s" % (tag, f.path, last)
+            if len(d0) == 1 and len(d1) == 1 and d0 != d1:
+                par = _reverse_parities(f, c)
+                if par is None or len(par) != 1:
+                    continue        # inspected on the way, or reversed under a direction flag (`if reverse { o.reverse() }`)
+                n += 1
+                swapped = min(d0) > min(d1)
+                want = 1 if swapped else 0
+                ctx.ob(rule, inst + ("|swapped" if swapped else "|straight"), par == {want},
+                       "%s hands its operands to %s %s and returns the verdict %s: the order it defines is not "
+                       "antisymmetric (both `a < b` and `b < a` hold for some pair), sort results depend on the input order "
+                       "and min / max return members that do not bound the others"
+                       % (f.path.split("::")[-1], last, "swapped" if swapped else "in their own order",
+                          "reversed" if 1 in par else "as it is"), f.where(c.bb))
+            elif len(d0) == 2 and d0 == d1:
+                if _reverse_parities(f, c) is None:
+                    continue
+                n += 1
+                ctx.ob(rule, inst + "|either", False,
+                       "both arguments of the %s in %s can come from either operand (an arm bound for both orientations): one of "
+                       "the two orientations gets the verdict of the other, so the order is not antisymmetric"
+                       % (last, f.path.split("::")[-1]), f.where(c.bb))
+    return n
+
+
+
 def check_stable_sorts(ctx, prog, tag, crates=("minijinja", "minijinja_contrib"), rule="C07.V16.values-are-sorted-with-a-stable-sort"):
     """V16 (round 11, seed C07-11): `sort` returns a *stable* ordered permutation (and `groupby`, `dictsort` build on the
     same helper).  Nothing in the engine sorts template values with an unstable algorithm: a `sort_unstable*` over a
@@ -1168,6 +1302,8 @@ def run(ctx):
         n15 = check_defaulted_lengths(ctx, prog, tag)
         n16 = check_stable_sorts(ctx, prog, tag)
         ctx.count("C07.V16 sort calls of the engine" + tag, n16)
+        n17 = check_comparator_orientation(ctx, prog, tag)
+        ctx.floor("C07.V17 inner comparisons with an orientation" + tag, n17, 8)
         ctx.count("C07.V15 defaulted lengths" + tag, n15)
         if prog.has_fn("minijinja::filters::builtins::groupby"):
             ctx.floor("C07.V14 grouping comparisons after a sort" + tag, n14, 1)
